@@ -747,7 +747,8 @@ def check_idx_pairing(P, R, rid):
                  why='get() picks child k by the position of a character in IDX and finds the wildcard at idx[-1]')
     # whole-node rebuilds: _split (idx= keyword with children=[node]), _try_merge (pnode[:] = child)
     sp = cls_.methods.get('_split')
-    R.require(sp is not None, 'RadiDict._split missing')
+    if sp is None:
+        sp = P.func(f'{RD}:RadiDict._split')        # merged into its only caller of the reference layout: analysed there
     mk = T.calls_to(sp, 'self._make_node', '_make_node', 'RadiDict._make_node')
     ok = False
     for c in mk:
